@@ -274,12 +274,13 @@ def search(rep: C.Report, tier: str, broken):
                                    "stefan_boltzmann": sb, "rel_diff": rel},
                                   finding_key=KEY_RES if (kind == "tables" and rel < 5e-4) else f"C20:SB:{kind}")
                 # (b) heavy particles: Boltzmann suppressed
-                X = np.array([r.uniform(100, 900) for _ in range(nb + nf)])
+                # inside the table and far beyond its upper end (m/T up to 1000)
+                X = np.array([r.choice((r.uniform(100, 900), 10 ** r.uniform(3, 6), r.uniform(1000, 1400))) for _ in range(nb + nf)])
                 from scipy.special import kv
                 v = float(pot.potentialOneLoopThermal((X[:nb] * T * T, dB, 0, 0), (X[nb:] * T * T, dF, 0, 0), T))
                 bound = T ** 4 / (2 * math.pi ** 2) * float(np.sum(np.concatenate([dB, dF]) * 1.05 * X * kv(2, np.sqrt(X))))
                 rep.case(key=("heavy", kind, nb, nf))
-                if not abs(v) <= bound + 1e-7 * T ** 4:
+                if not (abs(v) <= bound + 1e-7 * T ** 4 and v <= 1e-9 * T ** 4):
                     rep.violation("heavy particles are not Boltzmann suppressed in the thermal potential",
                                   {"integrals": kind, "T": T, "x": X.tolist(), "potential": v, "bound": bound}, finding_key=f"C20:heavy:{kind}")
                 # (c) generic spectrum = T^4/(2 pi^2) sum n J_ref
